@@ -1,6 +1,7 @@
 """C14 — separate compilation is equivalent to whole-program compilation.
 
-proof:   lean/GomlVerif/Props/C14.lean over Model/Sem.lean (run_perm_invariant, run_alpha_invariant_partial) and
+proof:   lean/GomlVerif/Props/C14.lean over Model/Sem.lean (run_perm_invariant, run_alpha_invariant — closures included,
+         by a relation on values —, separate_eq_whole_validated) and
          Model/Link.lean (check_build_same_interface)
 tie:     the real Core of both ways, fed to `gomlmodel c14`: the separate Core must be the whole-program Core up to
          the order of the functions and a per-function renaming of bound names (the driver finds the renaming and
@@ -193,8 +194,9 @@ def run(ctx):
 
     # ---- tie: the two Cores differ only by function order and per-function renaming of bound names
     res = run_model(ctx, equiv_lines) if equiv_lines else {}
-    n_eq = n_eq_ok = n_in_fragment = 0
+    n_eq = n_eq_ok = n_in_fragment = n_verified_with_closures = 0
     why = collections.Counter()
+    outside, outside_samples = collections.Counter(), []
     for key, (pid, order) in equiv_meta.items():
         r = res.get(key)
         n_eq += 1
@@ -203,7 +205,13 @@ def run(ctx):
             continue
         if r[0] == "equiv":
             n_eq_ok += 1
-            n_in_fragment += r[1] == "closure-free"
+            if r[1] == "verified":
+                n_in_fragment += 1
+                n_verified_with_closures += any(f.startswith("with-closures=") and f != "with-closures=0" for f in r[2:])
+            else:
+                outside[r[2] if len(r) > 2 else "?"] += 1
+                if len(outside_samples) < 5:
+                    outside_samples.append({"pair": key, "why": r[2:]})
         else:
             why[r[1] if len(r) > 1 else r[0]] += 1
             ctx.broken_ties.append(("separate Core ≠ whole Core up to function order and bound-name renaming", f"{pid} order {order}: {r[:3]}"))
@@ -226,7 +234,10 @@ def run(ctx):
         "behaviour_comparisons(distinct separate Go per project)": {"checked": n_beh, "same_as_whole(Go.Sem, Sem, Go.Check)": n_beh_ok},
         "go_text": {"separate_equal_to_whole": n_text_equal, "differs(only order/temporaries, see tie)": n_text_differs},
         "check_vs_build_interface": {"packages_checked": n_iface, "same_bytes": n_iface_same},
-        "tie_core_equivalence": {"pairs": n_eq, "equal_up_to_order_and_renaming": n_eq_ok, "of_which_closure_free(run_alpha_invariant_partial applies)": n_in_fragment,
+        "tie_core_equivalence": {"pairs": n_eq, "equal_up_to_order_and_renaming": n_eq_ok, "inside_verified_fragment(separate_eq_whole_validated applies)": n_in_fragment,
+                                 "of_which_with_closure_expressions": n_verified_with_closures,
+                                 "outside(only the unverified structural comparison accepts), by reason": dict(outside),
+                                 "outside_samples": outside_samples,
                                  "failures": dict(why)},
         "model_diffs": n_eq - n_eq_ok,
         "impl_oracle_failures": len(ctx.violations) + sum(h["count"] for h in ctx.known_hits),
@@ -234,7 +245,8 @@ def run(ctx):
     }
     ctx.assumptions += [
         "behaviour is judged under Sem / Go.Sem (no Go toolchain); goroutines under the eager schedule",
-        "run_alpha_invariant_partial covers Core without closure expressions; for programs with closures the equality of behaviour is observed, not proved",
+        "separate_eq_whole_validated / run_alpha_invariant cover Core with closure expressions (value relation Alpha.VRel); a pair outside the verified "
+        "fragment (coverage.tie_core_equivalence.outside…) is compared structurally only and its equality of behaviour is observed, not proved",
         "templates (harness/src/c14.rs::templates): types-only / trait-only / extern-only / empty packages, nesting depth 60 / 200 (1000 in the thorough tier) "
         "of lets, ifs and parentheses, the same function / type / trait name in two files of a package, self-imports and import cycles (the separate builds "
         "then run in an order read off the import lines), a main.gom that is not the first file; nested calls only to depth 10 (compile time doubles per level, both ways)",
